@@ -115,6 +115,13 @@ impl Property for C07 {
                 capacity
             );
         }
+        // a message that does not fit the send buffer is refused by the guard, nothing of it is sent
+        st.eval(1);
+        match oversize_probe(sh.as_ref(), &msgs, false) {
+            Ok(true) => st.label("oversize message refused by the send guard"),
+            Ok(false) => {}
+            Err((k, m)) => crate::vfail!(k, "{}", m),
+        }
         // classification
         let bounds = chunk_boundaries(&rchunks);
         let inside = bounds.iter().any(|b| !msgs.starts.contains(b));
